@@ -229,6 +229,11 @@ func deref(t types.Type) types.Type {
 // plainNotes: the vt.Plain statements to put in front of statement s (accesses in nested blocks
 // and function literals are handled when those blocks are visited)
 func plainNotes(s ast.Stmt, file, fn string, info *types.Info) []ast.Stmt {
+	return plainNotesPart(s, false, file, fn, info)
+}
+
+// late = the parts of a statement with an init clause that plainNotes leaves out (condition, post)
+func plainNotesPart(s ast.Stmt, late bool, file, fn string, info *types.Info) []ast.Stmt {
 	writes := map[*ast.SelectorExpr]bool{}
 	markW := func(e ast.Expr) {
 		for {
@@ -245,14 +250,33 @@ func plainNotes(s ast.Stmt, file, fn string, info *types.Info) []ast.Stmt {
 			return
 		}
 	}
-	switch st := s.(type) {
-	case *ast.AssignStmt:
-		for _, l := range st.Lhs {
-			markW(l)
+	var markStmt func(s ast.Stmt)
+	markStmt = func(s ast.Stmt) {
+		switch st := s.(type) {
+		case *ast.AssignStmt:
+			for _, l := range st.Lhs {
+				markW(l)
+			}
+		case *ast.IncDecStmt:
+			markW(st.X)
+		case *ast.ForStmt:
+			if st.Init != nil {
+				markStmt(st.Init)
+			}
+			if st.Post != nil {
+				markStmt(st.Post)
+			}
+		case *ast.IfStmt:
+			if st.Init != nil {
+				markStmt(st.Init)
+			}
+		case *ast.SwitchStmt:
+			if st.Init != nil {
+				markStmt(st.Init)
+			}
 		}
-	case *ast.IncDecStmt:
-		markW(st.X)
 	}
+	markStmt(s)
 	var out []ast.Stmt
 	seen := map[string]bool{}
 	visit := func(n ast.Node) bool {
@@ -260,6 +284,15 @@ func plainNotes(s ast.Stmt, file, fn string, info *types.Info) []ast.Stmt {
 		case *ast.BlockStmt, *ast.FuncLit, *ast.CaseClause, *ast.CommClause:
 			if n != ast.Node(s) {
 				return false
+			}
+		case *ast.CallExpr:
+			// cancelling a context closes its Done channel inside the (uninstrumented) runtime
+			if tv, ok := info.Types[x.Fun]; ok && tv.Type != nil && tv.Type.String() == "context.CancelFunc" {
+				key := "cancel" + exprStr(x.Fun)
+				if !seen[key] {
+					seen[key] = true
+					out = append(out, &ast.ExprStmt{X: vtCall("Cancel", newSite(file, fn, exprStr(x.Fun), "cancel", "", x.Pos()))})
+				}
 			}
 		case *ast.SelectorExpr:
 			if name, owner, ok := watchedSel(x, info); ok {
@@ -276,6 +309,24 @@ func plainNotes(s ast.Stmt, file, fn string, info *types.Info) []ast.Stmt {
 			}
 		}
 		return true
+	}
+	if late {
+		switch st := s.(type) {
+		case *ast.ForStmt:
+			if st.Init != nil {
+				if st.Cond != nil {
+					ast.Inspect(st.Cond, visit)
+				}
+				if st.Post != nil {
+					ast.Inspect(st.Post, visit)
+				}
+			}
+		case *ast.IfStmt:
+			if st.Init != nil {
+				ast.Inspect(st.Cond, visit)
+			}
+		}
+		return out
 	}
 	if sel, ok := s.(*ast.SelectStmt); ok {
 		// the communication operands are evaluated on entry to the select
@@ -356,6 +407,30 @@ func instrumentPlain(f *ast.File, file string, info *types.Info) bool {
 					}
 				}
 				return false
+			case *ast.ForStmt:
+				if x.Init != nil {
+					late := plainNotesPart(x, true, file, fn, info)
+					if len(late) > 0 {
+						any = true
+					}
+					x.Body.List = append(late, doList(x.Body.List, fn)...)
+					return false
+				}
+			case *ast.IfStmt:
+				if x.Init != nil {
+					late := plainNotesPart(x, true, file, fn, info)
+					if len(late) > 0 {
+						any = true
+						x.Body.List = append(append([]ast.Stmt{}, late...), doList(x.Body.List, fn)...)
+						if eb, ok := x.Else.(*ast.BlockStmt); ok {
+							late2 := plainNotesPart(x, true, file, fn, info)
+							eb.List = append(late2, doList(eb.List, fn)...)
+						} else if x.Else != nil {
+							doStmt(x.Else, fn)
+						}
+						return false
+					}
+				}
 			case *ast.BlockStmt:
 				x.List = doList(x.List, fn)
 				return false
